@@ -17,7 +17,9 @@ Theorem C08_source_tie_f :
      if version =? 48 then do dd <- validate_dialect 48 a; Ok {| ever := 48; evalue := value; edialect := dd |}
      else if version =? 64 then do dd <- validate_dialect 64 a; Ok {| ever := 64; evalue := value; edialect := dd |}
      else Raise ValueError) /\
-  (forall i strict, src_IAB_split_iab_mac i strict = omap (fun r => [fst r; snd r]) (split_iab_mac i strict)).
+  (forall i strict, src_IAB_split_iab_mac i strict = omap (fun r => [fst r; snd r]) (split_iab_mac i strict)) /\
+  (* BaseIdentifier.__index__, __long__, __int__ on an EUI: the value (Model/Eui.v py_to_int (AEui e) = evalue e) *)
+  (forall ver v, src_EUI_index ver v = v /\ src_EUI_long ver v = v /\ src_EUI_int ver v = v).
 Proof. exact C08_tie_f_ok. Qed.
 Print Assumptions C08_source_tie_f.
 
